@@ -111,7 +111,7 @@ def judge_c01(ctx, case, truth, res, model):
             return
         if is_pre_violation(rs, ro) and not any(e[0] == "inv" for e in rs):
             bad = [e for e in qs if e[0] in ("cap", "post")]
-            if bad:
+            if bad and op["op"] != "new":  # constructors nest (super().__init__, __new__ then __init__)
                 ctx.fail("rejected-but-%s|%s|%s" % (bad[0][0], op["op"], sig), case, D.describe(
                     case, res, "op %d %r rejected by its precondition but %r was evaluated" % (i, op, bad[0])))
                 return
